@@ -28,7 +28,7 @@ CHECKS = {
          "DESIGN.md §4 C18"),
  "C10": ("induction over the abstract state of each iterator (base + symbolic step) extracted by abstract interpretation of its SSA",
          "Decides, for every input at once, the structural facts Go's range semantics rests on: index iterators start at key 0, step by 1 and stop at n / len of their own slice header with live element reads; the string iterator decodes the remaining bytes with unicode/utf8, reports the byte offset it decoded at and advances by the decoder's width; the map iterator delegates to reflect.MapRange on the live map and cannot panic on nil interface keys/values; the channel iterator reports the comma-ok receive; Current is pure.",
-         "reflect.MapIter and unicode/utf8 are trusted to match Go's range; element-level equality beyond these facts is not decided; a hand-written decoder would be reported undecided rather than passed.",
+         "reflect.MapIter and unicode/utf8 are trusted to match Go's range; element-level equality beyond these facts is not decided; a hand-written decoder would be reported undecided rather than passed. If a refactored integer / string iterator is in none of the inductive forms, the rule falls back to evaluating it on constant operands (integers -2..5, 11 strings): bounded, labelled as such in the evidence; on the current tree the induction decides.",
          "DESIGN.md §4 C10"),
  "C12": ("abstract interpretation of the statement rewriter on a symbolic AST of every statement kind; hole-coverage path rule; abstract drive of the branch pass over all context nestings",
          "Decides the structural core of 'rejected or preserved, never silently mistranslated': unsupported kinds are rejected on every path; every original part that can contain a yield and still reaches the output is covered by a yield-freeness test answered true on its path (so no Yield can survive as a no-op stub); every nested statement list that reaches the output went through the rewriter's recursion (so nested unsupported constructs were seen); the branch pass keeps/replaces/rejects break/continue/fallthrough/goto exactly per the Go spec's target rule for all context nestings up to depth 3, with balanced context stacks; functions (declarations and literals) are marked as generators only after the signature check; every recover() in the rewriter re-raises what it caught, so a diagnostic always ends the run (RW.RECOVER).",
@@ -47,11 +47,11 @@ CHECKS = {
          "Known findings D16 (array operands sliced in place) and D21 (non-int integer operands) are recorded; element-level equality is C10's scope.",
          "DESIGN.md §4 C04"),
  "C05": ("template extraction of the YieldFrom and consumer-loop lowerings for every operand form; pass-order path rule on rewriteFile; runtime tables",
-         "Decides: YieldFrom(x) becomes exactly `for v := range x { Yield(v) }` with x once; the consumer lowering evaluates the delegate once, advances once per iteration, reads once per iteration; the passes run YieldFrom -> range-over-iterator -> generator bodies; the statements after the delegation run only after exhaustion by SEQ.FOR/SEQ.COMBINE.",
+         "Decides: YieldFrom(x) becomes exactly `for v := range x { Yield(v) }` with x once; the consumer lowering evaluates the delegate once, advances once per iteration, reads once per iteration; the passes run YieldFrom -> range-over-iterator -> generator bodies; the statements after the delegation run only after exhaustion by SEQ.FOR/SEQ.COMBINE; a function whose only yield is a delegation (of any element type) is recorded as a generator on every path that passes the signature check; the yield-containment scan finds a delegation however the call is spelled; the delegation rewriter keeps no state between files.",
          "Behaviour under deep recursion follows from C17/C08's rules; D15 recorded.",
          "DESIGN.md §4 C05"),
  "C06": ("template extraction of rewriteForRange / rewriteIter / result type; pass-order rule",
-         "Decides: consumer loops evaluate their operand exactly once, pull exactly one element per iteration in the loop condition (no prefetch), bind with the loop's own ':='/'=' token; the iterator type is replaced iff the iterator predicate holds, uniformly by seq.Iterator[T] under the file's import name.",
+         "Decides: consumer loops evaluate their operand exactly once, pull exactly one element per iteration in the loop condition (no prefetch), bind with the loop's own ':='/'=' token; the iterator type is replaced iff the iterator predicate holds, uniformly by seq.Iterator[T] under the file's import name; the post-less runtime loops the consumer is lowered to evaluate their condition once per iteration and never after a break (SEQ.FOR rows with a nil post).",
          "Completeness of the type replacement in every syntactic position shows as a build error and is not decided; D15 recorded.",
          "DESIGN.md §4 C06"),
  "C02": ("abstract interpretation of the seq constructors and resumptions (laziness, suspension, take-and-clear), template extraction of the generator wrapper / Bind / Combine / loop arguments, pattern-term extraction of the Delay-elision whitelist",
@@ -63,7 +63,7 @@ CHECKS = {
          "go-imports and the pattern-combinator library are trusted; observational equality of the two stages on all programs is not decided. Because Delay elision makes one term value serve many runs, the re-enterability of every seq term (second run from scratch, overlapping runs, no constructor-level state) is re-established in this check.",
          "DESIGN.md §4 C07"),
  "C11": ("abstract interpretation of the statement rewriter on symbolic ASTs of every supported kind (dispatch, factory totality, closing of thunk bodies), termination-checker table vs spec reference, block tables, loop-call template, branch pass, eta table, import-name dataflow",
-         "Decides the classes of compiler panics and ill-formed output the property names: every supported statement kind is accepted, the AST factory and the termination checker never panic on their optional parts / ordinary breaks, every statement list wrapped into a thunk ends in a return on its path, no nil node reaches a loop call, select is a break target in nested closures, closures over builtins/conversions/generics are kept, seq is referred to under its import name.",
+         "Decides the classes of compiler panics and ill-formed output the property names: every supported statement kind is accepted (and a statement without any yield in it is rejected on no path: RW.DISPATCH yield-free), the AST factory and the termination checker never panic on their optional parts / ordinary breaks, every statement list wrapped into a thunk ends in a return on its path, no nil node reaches a loop call, select is a break target in nested closures, closures over builtins/conversions/generics are kept, seq is referred to under its import name.",
          "'The generated package type-checks for every input' is not decided; D15 and D16 are recorded build-breaking findings (D21, D30 repaired). Also decided: a yield whose operand is assignable to the element type is never rejected; panic call sites are calls of the builtin; a last statement answering 'nothing follows' has closed its block; kind tags of pushed statements; qualified names under every import form; a tree that does not use the API passes through.",
          "DESIGN.md §4 C11"),
  "C13": ("resolved enumeration of all Cursor mutator call sites + abstract evaluation of the file-level callbacks over node kinds (edits only under API-membership predicates) + call-graph confinement; eta-reduction table; pass0 in nested closures; branch pass boundary",
@@ -71,7 +71,7 @@ CHECKS = {
          "Doc comments in directive positions (file, declaration, spec) are decided to survive the installed comment list (collected per node type, traversal not pruned, merged in source order); loss of free-floating and line comments is behaviour-neutral and not judged; go-imports trusted.",
          "DESIGN.md §4 C13"),
  "C15": ("resolved-program scans (map ranges, nondeterminism sources), per-file reset path rule on rewriteFile, counter lifetime analysis of gensym, event-order rule on the intermediate directory, SSA backward slice of memo tables (key determines value)",
-         "Decides the absence of every source of run-to-run or context dependence in the output path: no map iteration, no time/rand/pid/env, per-file state re-initialised before the first pass, unique-name counter advanced once per temporary and alive for exactly one file, intermediate directory emptied before use and removed afterwards, iterator temporaries named through gensym, no table outliving a call filled with a value its key does not determine (OPT.MEMO), no stage loaded with type errors suppressed (DET.PARTIALTYPES: recorded finding D31).",
+         "Decides the absence of every source of run-to-run or context dependence in the output path: no map iteration, no time/rand/pid/env, per-file state re-initialised before the first pass, unique-name counter advanced once per temporary and alive for exactly one file, intermediate directory emptied before use and removed afterwards, each stage loads the directory the previous one wrote and removes nothing else, iterator temporaries named through gensym, no table outliving a call filled with a value its key does not determine (OPT.MEMO), no stage loaded with type errors suppressed (DET.PARTIALTYPES: recorded finding D31).",
          "File order of go/packages and the output of go/printer are trusted; byte identity itself is not compared.",
          "DESIGN.md §4 C15"),
  "C16": ("abstract interpretation of GoGen / cogen with constant folding of string functions (file filter and both printers evaluated on concrete names), header constant checked with go/build/constraint, event-order rule on the intermediate directory",
